@@ -3,6 +3,7 @@ import json, os, re
 from vcheck import *
 
 F08_SIG = {"kind": "dangling-funcref-private-table", "witness": "F08"}
+F08B_SIG = {"kind": "dangling-funcref-imported-global", "witness": "F08b"}
 ORDINARY = ("e:exit:", "e:refused", "e:nohandle")
 
 
@@ -15,8 +16,8 @@ def coq_mod(mods, m):
         # an imported store function is a function record of m2: any own record has the same code owner
         q = mods[m2]
         impf.append([m2, len(q.get("impf") or []) + len(q.get("imps") or [])])
-    return "mkM %s %s %d %d %d %d %d [%s]" % (pairs(impf), pairs(m.get("impt")), m["nfun"], m["nexp"], m["npriv"], m["nglob"], m["size"],
-                                              "; ".join("(%d, %d, %d)" % tuple(e) for e in (m.get("elems") or [])))
+    return "mkM %s %s %d %d %d %d %d [%s] 0 []" % (pairs(impf), pairs(m.get("impt")), m["nfun"], m["nexp"], m["npriv"], m["nglob"], m["size"],
+                                                   "; ".join("(%d, %d, %d)" % tuple(e) for e in (m.get("elems") or [])))
 
 
 def ntab(m): return len(m.get("impt") or []) + m["nexp"] + m["npriv"]
@@ -98,17 +99,22 @@ def run(tier, seed):
                        "compiling after the engine behind a closed CompilationCache is not exercised; memories and imported globals are not part of the histories",
                        "F08-class histories (a funcref placed by parameter into a holder that does not track its definer) are cut before the dangling use; one canonical witness is executed"]
     proofs_ok = ck.proofs()
-    n = 22 if tier == "quick" else 1200
+    n = 32 if tier == "quick" else 800
     binp, log = build_harness("c09")
     if not binp:
         ck.violation("harness-build", {"kind": "build"}, {"log": log[-3000:]}, no_input=True)
         return ck.finish()
     rc, out = sh([binp, "-gen", "-seed", str(seed), "-n", str(n)], timeout=120)
     hs = [json.loads(l) for l in out.split("\n") if l.startswith("{")]
-    if rc != 0 or len(hs) < n:
+    if rc != 0 or len(hs) < n + 3:
         ck.violation("harness-crash", {"kind": "gen"}, {"rc": rc, "tail": out[-2000:]}, no_input=True)
         return ck.finish()
-    preds, err = classify(hs)
+    for h in hs:
+        h["ops"] = h.get("ops") or []; h["mods"] = h.get("mods") or []
+    modelled = [h for h in hs if not h.get("probe")]
+    preds, err = classify(modelled)
+    if preds is not None:
+        it = iter(preds); preds = [([] if h.get("probe") else next(it)) for h in hs]
     if preds is None:
         ck.violation("model-eval", {"kind": "model-eval"}, {"out": err[-3000:]}, no_input=True)
         return ck.finish()
@@ -144,13 +150,13 @@ def run(tier, seed):
     for r in res:
         h = byid[r["id"]]; p = h["pred"]; eng = r["engine"]
         if h.get("witness"):
-            last = len(h["ops"]) - 1
+            key = (h["witness"], "%s/%s%s" % (eng, "cached" if h["cached"] else "uncached", "/no-churn" if h.get("nochurn") else ""))
             if r.get("crash"):
-                f08[(eng, h["cached"])] = "crash at step %d: %s" % (r["step"], r["crash"])
-            elif r["obs"][last] != r["twin"][last]:
-                f08[(eng, h["cached"])] = "call_indirect returned %s, twin %s" % (r["obs"][last], r["twin"][last])
+                f08[key] = "crash at step %d: %s" % (r["step"], r["crash"])
+            elif r["obs"][-1] != r["twin"][-1]:
+                f08[key] = "call_indirect returned %s, twin %s" % (r["obs"][-1], r["twin"][-1])
             else:
-                f08[(eng, h["cached"])] = None
+                f08[key] = None
             continue
         brief = {"id": h["id"], "engine": eng, "cached": h["cached"], "mods": h["mods"], "ops": h["ops"], "cut": h["cut"], "pred": p}
         if r.get("crash"):
@@ -185,15 +191,19 @@ def run(tier, seed):
     ck.extra["rule"] = ("histories generated from VERIF_SEED over 2-4 modules (exporter of functions and a table; importers with private tables / funcref globals; "
                         "store-by-parameter imports), classified by the Coq model (vm_compute of Lifetime.classify), each executed on both engines in its own supervised "
                         "child process next to a twin runtime in which nothing is closed; non-trivial = a call returns a value after a close/drop followed by a forced collection")
-    rep = {"%s/%s" % (e, "cached" if c else "uncached"): v for (e, c), v in sorted(f08.items())}
-    ck.extra["F08_witness"] = rep
-    if any(v for v in f08.values()):
-        ck.violation("dangling-funcref-private-table", dict(F08_SIG), {"witness": "instantiate B; instantiate P importing B.st0; P.pass(ref.func P.f) -> B private table; close P and its compiled module; drop; gc; B.call_indirect",
-                                                                      "model": "Lifetime.classify predicts 2 (dereferences a collected record) at the last step", "observed": rep})
-    else:
-        ck.note("F08 witness did NOT reproduce on either engine in this run (the model still classifies it as dangling): %s" % json.dumps(rep))
-    for k, v in rep.items():
-        if v is None: ck.note("F08 witness not observed on %s (dangling memory not yet reused / still mapped)" % k)
-    if not proofs_ok and not [v for v in ck.violations if v["kind"] not in ("dangling-funcref-private-table",)]:
+    WIT = {"F08": (F08_SIG, "instantiate B; instantiate P importing B.st0; P.pass(ref.func P.f) -> B's private table; close P and its compiled module; drop; gc; B.call_indirect",
+                   "Lifetime.classify predicts 2 (dereferences a collected record) at the last step; theorem C09_private_table_refuted"),
+           "F08b": (F08B_SIG, "A exports a mutable funcref global g; B imports it and does global.set g (ref.func B.f); close B and its compiled module; drop; gc; A: table.set 0 (global.get g); call_indirect",
+                    "same class (a holder that does not track the definer: globals have no involvingModuleInstances); not generated in histories, fixed witness only")}
+    for w, (sig, what, model) in WIT.items():
+        rep = {k[1]: v for k, v in sorted(f08.items()) if k[0] == w}
+        ck.extra[w + "_witness"] = rep
+        if any(v for v in rep.values()):
+            ck.violation(sig["kind"], dict(sig), {"witness": what, "model": model, "observed": rep})
+        else:
+            ck.note("%s witness did NOT reproduce on either engine in this run: %s" % (w, json.dumps(rep)))
+        for k, v in rep.items():
+            if v is None: ck.note("%s witness not observed on %s (dangling memory not reused / still mapped in this run)" % (w, k))
+    if not proofs_ok and not [v for v in ck.violations if v["kind"] not in ("dangling-funcref-private-table", "dangling-funcref-imported-global")]:
         ck.violation("proof-broken", {"kind": "proof-broken"}, getattr(ck, "proof_failure", {}), no_input=True)
     return ck.finish()
